@@ -350,12 +350,12 @@ def check_agree(case):
     if _cls(a["status"]) != _cls(b["status"]):
         return bad("eager and static Newton-CG disagree on status: eager=%d static=%d (eager nit=%d, static nit=%d; %s) [%s]"
                    % (a["status"], b["status"], a["nit"], b["nit"], event, _ckey(case)),
-                   finding_key="agree|%s|status|eager-%s,static-%s" % (event, _cls(a["status"]), _cls(b["status"])),
+                   finding_key="agree|%s|status" % event,
                    detail=dict(eager=a["x"].tolist(), static=b["x"].tolist()))
     if not dx <= X_TOL*max(1., np.abs(a["x"]).max()):
         return bad("eager and static Newton-CG disagree on x by %.3g (status eager=%d static=%d, nit %d/%d; %s) [%s]"
                    % (dx, a["status"], b["status"], a["nit"], b["nit"], event, _ckey(case)),
-                   finding_key="agree|%s|x|nit-%s" % (event, "equal" if a["nit"] == b["nit"] else "differs"),
+                   finding_key="agree|%s|x" % event,
                    detail=dict(eager=a["x"].tolist(), static=b["x"].tolist()))
     moved = bool(np.any(a["x"] != x0))
     return ok(nontrivial=moved, outcome="agree|start-%s|%s|status-%s" % (lab0, "moved" if moved else "stayed", _cls(a["status"])),
